@@ -25,9 +25,10 @@ pub struct Spec {
     pub assumptions: Vec<String>,
 }
 
-/// Depth of the histories of one program: programs named `deep-…` get one more operation.
+/// Depth of the histories of one program: programs named `deep-…` get one more operation,
+/// programs named `shallow-…` one less.
 pub fn depth_of(spec: &Spec, prog: &Program) -> usize {
-    spec.depth + usize::from(prog.name.starts_with("deep-"))
+    spec.depth + usize::from(prog.name.starts_with("deep-")) - usize::from(prog.name.starts_with("shallow-"))
 }
 
 #[derive(Clone, Debug, Serialize, Deserialize)]
